@@ -323,6 +323,7 @@ func runC17(r *rt.Run) {
 	}
 	// objects obtained from Parse
 	seeds := append(append(docgen.Seeds(), floatSeeds()...), invalidSeeds()...)
+	seeds = append(seeds, docgen.LargeDocs()...) // buffer growth with thousands of positions / hundreds of children
 	for _, s := range seeds {
 		for _, os := range []optSet{optDefault, optAlt} {
 			o, err, _ := parseChecked(s, os.O)
@@ -334,7 +335,7 @@ func runC17(r *rt.Run) {
 			depth := map[string]int{"Point": 1, "LineString": 2, "Polygon": 3, "MultiPoint": 2, "MultiLineString": 3, "MultiPolygon": 4}[typeOf(o)]
 			if what, exp, got := checkSerial(o, typeOf(o), depth); what != "" {
 				w.Fail("serial-parsed-"+what, func() (rt.Case, string, string) {
-					return rt.Case{Kind: "serial", Op: "Parse", Doc: s, Cfg: os.Name, X: map[string]string{"what": what}}, exp, got
+					return rt.Case{Kind: "serial", Op: "Parse", Doc: trunc(s), Cfg: os.Name, X: map[string]string{"what": what, "len": fmt.Sprint(len(s))}}, trunc(exp), trunc(got)
 				})
 			}
 		}
